@@ -323,7 +323,7 @@ def run_instance(inst):
             kw["subset_weights"] = list(inst["subset_weights"])
     elif inst["cls"] == "MinErrorFlow":
         G = build_graph(inst)
-        kw = {"G": G, "flow_attr": "flow", "solver_options": {"threads": 1}}
+        kw = {"G": G, "flow_attr": "flow", "solver_options": dict({"threads": 1}, **inst.get("sopt", {}))}
         if "mode" in inst:
             kw["flow_attr_origin"] = inst["mode"]
         if "wt" in inst:
